@@ -262,6 +262,11 @@ def run(ctx: Ctx) -> None:
     ctx.call(per_vm_template, "2")
     ctx.call(per_worker_template, "3")
     ctx.call(run_flags, "4")
+    from ..kinds import signature_defaults
+
+    ctx.call(signature_defaults, "4d", {
+        "cartgraph/graph.py:TestGraph.flag_children": {"node_name": "''", "object_name": "''", "worker_name": "''", "flag_type": "'run'", "skip_parents": "False", "skip_children": "False"},
+    }, "manual steps flag every node from the shared root")
     ctx.call(step_table, "5")
 
 
